@@ -443,19 +443,22 @@ PROPS["C14"] = dict(
     not_covered=["programs/grids outside the bound", "pruned trials and n_jobs>1", "termination argument for arbitrary trees"],
 )
 PROPS["C09"] = dict(
-    modules=["contracts.exhaustive", "contracts.pruners"],
+    modules=["contracts.exhaustive", "contracts.pruners"], bounded=["bounded.seed_lattice"],
     claim="Storage-independence of what samplers/pruners remember about trials, where it sits behind a function boundary: "
           "HyperbandPruner._get_bracket_id is a pure function of (study name, trial NUMBER, budgets) -- proved for all inputs; "
           "BaseGASampler.get_parent_population must return the trials whose storage ids were cached on every storage -- this "
           "obligation FAILS on the unchanged tree (known finding F6: the cache is read back by list position) and is proved "
-          "under the restriction 'every trial id equals its number'.",
-    note="seeded RNG determinism, sampler numerics and whole-run reproducibility across backends are outside contract reach; "
-         "copy_study is not under contract",
+          "under the restriction 'every trial id equals its number'.  Whole-run reproducibility (storage backends, id offsets, "
+          "split optimize calls, PYTHONHASHSEED, copy_study) only by a BOUNDED run-time stand-in on the real code (labelled "
+          "bounded, not proved).",
+    note="seeded RNG determinism, sampler numerics and whole-run reproducibility across backends are outside contract reach "
+         "(bounded stand-in only); copy_study is not under contract (bounded only); gRPC proxy not run",
     assumptions=LIB_ASSUMPTIONS + ["Study._get_trials(deepcopy=False) lists all current trials ordered by number (C01)",
                                    "parent-cache entries hold ids of current trials (what get_parent_population itself stores)",
                                    "comprehension elements are evaluated without exception paths (an out-of-range index inside the "
                                    "comprehension is an arbitrary element, not IndexError)"],
-    not_covered=["RNG/float determinism of every sampler", "TPE group ordering (set iteration order, PYTHONHASHSEED)", "copy_study",
-                 "GridSampler/QMC id memory", "split of a run into several optimize calls"],
+    not_covered=["RNG/float determinism of every sampler: bounded only", "TPE group ordering (set iteration order, PYTHONHASHSEED): bounded only",
+                 "copy_study: bounded only", "GridSampler/QMC id memory: bounded only", "split of a run into several optimize calls: bounded only",
+                 "gRPC proxy, GP / CMA-ES samplers, n_jobs > 1"],
     witnesses={"BaseGASampler.get_parent_population:post/ok/ret0": "witnesses.f6"},
 )
